@@ -238,7 +238,7 @@ func (r *Report) finish(evidenceDir, knownPath, replayDir string, want map[strin
 			if fr.Err == nil {
 				continue
 			}
-			if fr.Exec.con != nil && hasProp(contractProps(fr.Exec.con), map[string]bool{prop: true}) {
+			if fr.Exec.con != nil && hasProp(r.Prog.contractPropsFull(fr.Exec.con), map[string]bool{prop: true}) {
 				violations++
 				s := &OblSummary{Name: fr.Key + "/engine", Kind: "engine", Func: fr.Key, Desc: fr.Err.Error(), Answer: "undecided"}
 				path := r.writeReplay(replayDir, prop, s)
